@@ -63,6 +63,15 @@ def dropRespOnErr : RTOut → RTOut
 def specRoundTrip (c : RestConf) (o : RTOut) : RTOut :=
   if c.enableLogging then dropRespOnErr o else o
 
+/-- BuildMiddleware is a function of the CURRENT configuration: the chain built at any point of a
+    history wraps in the order the property states for the options applied so far (whatever was built,
+    copied or switched before) -/
+def specBuildsFrom (before : List Opt) : List COp → List (List Event)
+  | [] => []
+  | .apply o :: r => specBuildsFrom (before ++ [o]) r
+  | .build :: r => specTrace (specConf before) :: specBuildsFrom before r
+  | .copy :: r => specBuildsFrom before r
+
 /-- "the generated client's HTTP timeout equals the configured timeout" -/
 def specClientTimeout (c : RestConf) : Int := c.timeout
 
